@@ -267,6 +267,31 @@ static void big_case(uint64_t idx, void *ctx)
     mc_nontrivial();
     mc_outcome((uint64_t) n * 9 + (uint64_t) order * 3 + (uint64_t) cls);
 }
+/* ---- a key maps to the value most recently set, also when the new value compares EQUAL to the old one without being the same value:
+ * pairs are compared by their key only, a URL compares like its text */
+static void eq_desc(uint64_t idx, void *ctx, char *b, size_t n) { (void) ctx; snprintf(b, n, "%s map: set(k, %s), set(k, %s), get(k)", CN[idx % 3], idx / 3 ? "str \"http://h/\"" : "pair(u,x1)", idx / 3 ? "url \"http://h/\"" : "pair(u,x2)"); }
+static void eq_case(uint64_t idx, void *ctx)
+{
+    int kind = (int) (idx / 3); (void) ctx; CLS = (int) (idx % 3);
+    const char *shape = "new value compares equal to the old one"; mc_set_shape(shape);
+    spif_map_t mp = new_map(); spif_obj_t K = S_("k"), pre = S_("j"), prev = S_("0");
+    SPIF_MAP_SET(mp, pre, prev);
+    spif_obj_t v1, v2;
+    if (kind == 0) { spif_obj_t u = S_("u"), x1 = S_("x1"), x2 = S_("x2"); v1 = SPIF_OBJ(spif_objpair_new_from_both(u, x1)); v2 = SPIF_OBJ(spif_objpair_new_from_both(u, x2)); SPIF_OBJ_DEL(u); SPIF_OBJ_DEL(x1); SPIF_OBJ_DEL(x2); }
+    else { v1 = S_("http://h/"); v2 = SPIF_OBJ(spif_url_new_from_ptr((spif_charptr_t) "http://h/")); }
+    if (SPIF_MAP_SET(mp, K, v1)) FAIL(site("set"), "model:return", shape, "first set reported a replacement");
+    if (!SPIF_MAP_SET(mp, K, v2)) FAIL(site("set"), "model:return", shape, "second set did not report a replacement");
+    SPIF_OBJ_DEL(v1); SPIF_OBJ_DEL(v2);
+    spif_obj_t g = SPIF_MAP_GET(mp, K);
+    if (!g) FAIL(site("get"), "model:return", shape, "get returned NULL");
+    else if (kind == 0) { if (!SPIF_OBJ_IS_OBJPAIR(g) || !is_str(SPIF_OBJPAIR(g)->value, "x2")) FAIL(site("set"), "model:most-recent-value", shape, "the key still maps to the first pair (u,x1), not to (u,x2)"); }
+    else if (!SPIF_OBJ_IS_URL(g)) FAIL(site("set"), "model:most-recent-value", shape, "the key still maps to the string, not to the URL set after it");
+    if ((int) SPIF_MAP_COUNT(mp) != 2) FAIL(site("count"), "model:return", shape, "count=%d", (int) SPIF_MAP_COUNT(mp));
+    SPIF_OBJ_DEL(K); SPIF_OBJ_DEL(pre); SPIF_OBJ_DEL(prev);
+    SPIF_MAP_DEL(mp);
+    mc_nontrivial();
+    mc_outcome(idx);
+}
 int main(int argc, char **argv)
 {
     mc_init("C03", argc, argv);
@@ -282,6 +307,7 @@ int main(int argc, char **argv)
         mc_sys sys = { CN[CLS], NOPS, op_name, fresh, enabled, apply, probe, canon, teardown, (int) mc_arg_int("lookahead", 1) };
         mc_e1_run(&sys, (int) mc_arg_int("depth", 40));
     }
+    if (!only) mc_e2_level("equal_comparing_values", 1, 6, eq_case, eq_desc, NULL);
     if (!only) mc_e2_level("large", 513, (uint64_t) 3 * 3 * NBIGN, big_case, big_desc, NULL);
     return mc_finish();
 }
